@@ -2,6 +2,7 @@
 spec/History.tla validates print histories executed on the real package against
 baselines obtained by printing each value FIRST in a FRESH interpreter."""
 import collections
+import gc
 import json
 import os
 import subprocess
@@ -164,6 +165,14 @@ def check_c19(chk, args):
         caches.reset()
         ev = []
         for i in h:
+            if C.FACTORIES[i][0] in getattr(C, 'EPHEMERAL', ()):
+                tmp = C.FACTORIES[i][1]()
+                text = C.print_one(tmp)
+                del tmp
+                gc.collect()
+                ev.append({'v': i + 1, 'text': texts.get(text, -1), 'proj': C.projection(), 'same': True,
+                           'raw': text[:300] if texts.get(text, -1) != base[i]['tid'] else None})
+                continue
             before = snaps[i]
             text = C.print_one(values[i])
             after = snapshot(values[i])
